@@ -1609,6 +1609,35 @@ def _accumulating_reader(fn, c, R):
             hops += 1
         return x
 
+    single_def = {}
+    for n in fn.all_nodes():
+        if n.get('k') == 'decl':
+            for v in n['vars']:
+                single_def.setdefault(v['d'], []).append(('decl', n['id'], v.get('init')))
+        elif n.get('k') == 'assign':
+            l = fn.sn(n['lhs'])
+            if l is not None and l.get('k') == 'var':
+                single_def.setdefault(l['d'], []).append(('assign', n['id'], None))
+        elif n.get('k') == 'unop' and n.get('op') in ('++', '--', '&'):
+            l = fn.sn(n['sub'])
+            if l is not None and l.get('k') == 'var':
+                single_def.setdefault(l['d'], []).append(('assign', n['id'], None))
+
+    def named(x, barrier=None):
+        """look through a local that is defined exactly once (by its initialiser) -- a name for a sub-expression -- provided the
+        read cannot be reached from a counter update without passing that definition again (else the name is stale)"""
+        hops = 0
+        while x is not None and x.get('k') == 'var' and x.get('vk') == 'local' and hops < 4:
+            defs = single_def.get(x['d'], [])
+            if len(defs) != 1 or defs[0][0] != 'decl' or not isinstance(defs[0][2], int):
+                break
+            dnode = defs[0][1]
+            if barrier is not None and path_search(fn, barrier, lambda e: e == c['id'], lambda e: e == dnode, _normal_edges(fn)) is not None:
+                break   # the read can execute after a counter update without the name having been recomputed: stale
+            x = uncast(fn.sn(defs[0][2]))
+            hops += 1
+        return x
+
     # result variable
     res = None
     pn, _ch = _parent_skip(fn, c['id'])
@@ -1645,7 +1674,7 @@ def _accumulating_reader(fn, c, R):
     else:
         if init is not None and fn.const_value(init) == 0:
             for x in a:
-                sx = uncast(fn.sn(x))
+                sx = named(uncast(fn.sn(x)), upd)
                 if sx is not None and sx.get('k') == 'binop' and sx['op'] == '-' and is_var(fn.sn(sx['rhs']), ctr):
                     t = fn.sn(sx['lhs'])
                     if t is not None and t.get('k') == 'var' and t.get('vk') == 'param':
@@ -1696,13 +1725,15 @@ def _accumulating_reader(fn, c, R):
     cnt_ok = off_ok = False
     for x in a:
         sx = uncast(fn.sn(x))
+        if not (form == 'rem' and is_var(sx, ctr)):
+            sx = named(sx, upd)
         if sx is None:
             continue
         if form == 'rem':
             if is_var(sx, ctr):
                 cnt_ok = True
             if sx.get('k') == 'binop' and sx['op'] == '+':
-                p_, o = fn.sn(sx['lhs']), fn.sn(sx['rhs'])
+                p_, o = fn.sn(sx['lhs']), named(uncast(fn.sn(sx['rhs'])), upd)
                 if p_ is not None and p_.get('k') == 'var' and p_.get('vk') == 'param' and o is not None and o.get('k') == 'binop' and o['op'] == '-' \
                         and total is not None and is_var(fn.sn(o['lhs']), total) and is_var(fn.sn(o['rhs']), ctr):
                     off_ok = True
@@ -1710,7 +1741,7 @@ def _accumulating_reader(fn, c, R):
             if sx.get('k') == 'binop' and sx['op'] == '-' and total is not None and is_var(fn.sn(sx['lhs']), total) and is_var(fn.sn(sx['rhs']), ctr):
                 cnt_ok = True
             if sx.get('k') == 'binop' and sx['op'] == '+':
-                p_, o = fn.sn(sx['lhs']), fn.sn(sx['rhs'])
+                p_, o = fn.sn(sx['lhs']), named(uncast(fn.sn(sx['rhs'])), upd)
                 if p_ is not None and p_.get('k') == 'var' and p_.get('vk') == 'param' and is_var(o, ctr):
                     off_ok = True
     cyc = path_search(fn, c['id'], lambda e: e == c['id'], lambda e: e == upd, _normal_edges(fn))
